@@ -240,11 +240,11 @@ func checkRuleStrings(run *core.Run) {
 
 func runC18(run *core.Run) {
 	depth := 3
-	alpha := []string{":", "#", "@", "*", " ", "\t", "\n", "a", "0", "_", "|", ".", "+", "-", "/", "é"}
+	alpha := []string{":", "#", "@", "*", " ", "\t", "\n", "\f", "\r", "a", "0", "_", "|", ".", "+", "-", "/", "é"}
 	if run.Tier == "thorough" {
 		depth = 5
 	}
-	run.Rule = fmt.Sprintf("every string up to length %d (quick: plus length 4 over 9 class representatives) over 16 class representatives {: # @ * blank tab LF a 0 _ | . + - / é}, strings composed as type SEP id SEP relation from pools of legal and hostile parts (thorough: 11 x 5 x 14 x 6 x 11 shapes; quick: 6 x 3 x 7 x 4 x 6), boundary lengths around every limit (1, 2, 50/51, 254/255, 256/257 in code points, with multi-byte characters), random Unicode strings; each string goes through all 9 validators and the decomposition predicate R5 (soundness and completeness); the five Rule* constants of the running Go package compared with the strings in the JS and Java sources; non-trivial = string accepted by at least one validator; distinct by string", depth)
+	run.Rule = fmt.Sprintf("every string up to length %d (quick: plus length 4 over 10 class representatives) over 18 class representatives {: # @ * blank tab LF FF CR a 0 _ | . + - / é}, strings composed as type SEP id SEP relation from pools of legal and hostile parts (thorough: 11 x 5 x 14 x 6 x 11 shapes; quick: 6 x 3 x 7 x 4 x 6), boundary lengths around every limit (1, 2, 50/51, 254/255, 256/257 in code points, with multi-byte characters), random Unicode strings; each string goes through all 9 validators and the decomposition predicate R5 (soundness and completeness); the five Rule* constants of the running Go package compared with the strings in the JS and Java sources; non-trivial = string accepted by at least one validator; distinct by string", depth)
 	checkRuleStrings(run)
 	total := 0
 	pw := 1
@@ -271,7 +271,7 @@ func runC18(run *core.Run) {
 	run.Count("exhaustive_strings", int64(total))
 	if run.Tier == "quick" {
 		// one representative per class, one length further
-		alpha2 := []string{":", "#", "@", "*", " ", "a", "|", "-", "é"}
+		alpha2 := []string{":", "#", "@", "*", " ", "\f", "a", "|", "-", "é"}
 		t2 := 1
 		for k := 0; k < 4; k++ {
 			t2 *= len(alpha2)
